@@ -300,10 +300,10 @@ def rule_X3(ctx):
                 empty = n.value is None or (isinstance(n.value, (ast.List, ast.Tuple))
                                             and not n.value.elts)
                 # returns that precede the rendering loop cannot have seen an error
-                before = not any(isinstance(x, ast.ExceptHandler) and x.lineno < n.lineno
+                before = not any(isinstance(x, ast.ExceptHandler) and x._ord < n._ord
                                  for x in ast.walk(gnt.node))
                 if guarded or empty or before or isinstance(n.value, ast.Name) and all(
-                        x.lineno > n.lineno for x in ast.walk(gnt.node)
+                        x._ord > n._ord for x in ast.walk(gnt.node)
                         if isinstance(x, ast.ExceptHandler)):
                     res.holds(inst)
                 else:
@@ -314,7 +314,8 @@ def rule_X3(ctx):
     # 2. error lists returned by collect-errors functions
     collectors = _collectors(prog)
     res.facts["collectors"] = sorted(c.qualname for c in collectors)
-    for f in list(cond.classes["WorkflowConductor"].methods.values()):
+    for f in [m_ for m_ in cond.classes["WorkflowConductor"].methods.values()
+              if not prog.is_dead_helper(m_)]:
         for n in ast.walk(f.node):
             if isinstance(n, ast.Assign) and isinstance(n.value, ast.Call):
                 cname = callee_name(n.value)
